@@ -95,6 +95,14 @@ class Opaque:
         return "<opaque %s>" % self.what
 
 
+class FStr(Opaque):
+    """An f-string kept as its parts: [("text", str) | ("value", abstract value)]."""
+
+    def __init__(self, parts):
+        Opaque.__init__(self, "f-string")
+        self.parts = parts
+
+
 class SuperProxy:
     def __init__(self, cls, self_):
         self.cls, self.self_ = cls, self_
@@ -320,6 +328,8 @@ class Frame:
                 if self.ev.on_store_attr is not None:
                     self.ev.on_store_attr(o, t.attr, v, t)
                 o.d[t.attr] = v
+            elif hasattr(o, "setattr"):
+                o.setattr(self, t.attr, v, t)
             else:
                 raise AnalysisError("engine B: attribute store on %r" % (o,))
         elif isinstance(t, ast.Subscript):
@@ -385,9 +395,19 @@ class Frame:
         if not broke:
             self.block(st.orelse)
 
+    def _while_test(self, st):
+        before = len(B.cur().log)
+        r = self.truth(self.expr(st.test), st.test)
+        if len(B.cur().log) > before and getattr(self.ev, "abs_bufs", None):
+            # a trip count that depends on the symbolic length cannot be unrolled; the per-element loop forms
+            # (range(len(buf)), enumerate(buf), for x in buf) are the ones this domain summarises
+            raise AnalysisError("engine B: while loop with a symbolic trip count over an abstract buffer at %s:%d"
+                                % (self.mod.name, st.lineno))
+        return r
+
     def s_While(self, st):
         n = 0
-        while self.truth(self.expr(st.test), st.test):
+        while self._while_test(st):
             n += 1
             if n > self.ev.MAX_ITER:
                 raise B.Truncated("while loop at %s:%d not bounded by the abstract state after %d iterations"
@@ -465,9 +485,14 @@ class Frame:
         return self.ev.lookup_global(self.mod, e.id, e)
 
     def e_JoinedStr(self, e):
+        parts = []
         for v in e.values:
             if isinstance(v, ast.FormattedValue):
-                self.expr(v.value)
+                parts.append(("value", self.expr(v.value)))
+            elif isinstance(v, ast.Constant):
+                parts.append(("text", v.value))
+        if getattr(self.ev, "keep_fstrings", False):
+            return FStr(parts)
         return Opaque("f-string")
 
     def e_Dict(self, e):
@@ -806,6 +831,8 @@ class Frame:
             if self.ev.index.has_module(o.name):
                 return self.ev.lookup_global(self.ev.index.module(o.name), attr, node)
             raise AnalysisError("engine B: unmodelled module attribute %s" % q)
+        if isinstance(o, Native) and (o.name + "." + attr) in self.ev.natives:
+            return Native(self.ev.natives[o.name + "." + attr], o.name + "." + attr)
         if isinstance(o, Native) and o.name in ("bytes", "bytearray") and attr == "maketrans":
             return Native(_b_maketrans, "bytes.maketrans")
         if hasattr(o, "getattr"):
@@ -822,8 +849,11 @@ class Frame:
             raise AnalysisError("engine B: bare super()")
         if (isinstance(e.func, ast.Attribute) and isinstance(e.func.value, ast.Call)
                 and isinstance(e.func.value.func, ast.Name) and e.func.value.func.id == "super"):
-            proxy = SuperProxy(self.cls, self.env.get("self"))
-            f = self.getattr(proxy, e.func.attr, e)
+            if getattr(self.ev, "super_hook", None) is not None:
+                f = self.ev.super_hook(self, e.func.attr, e)
+            else:
+                proxy = SuperProxy(self.cls, self.env.get("self"))
+                f = self.getattr(proxy, e.func.attr, e)
         else:
             f = self.expr(e.func)
         args = []
@@ -835,7 +865,11 @@ class Frame:
         kwargs = {}
         for k in e.keywords:
             if k.arg is None:
-                raise AnalysisError("engine B: **kwargs")
+                d = self.expr(k.value)
+                if not (isinstance(d, dict) and all(isinstance(x, str) for x in d)):
+                    raise AnalysisError("engine B: ** of something that is not a dict with string keys")
+                kwargs.update(d)
+                continue
             kwargs[k.arg] = self.expr(k.value)
         return self.ev.call(f, args, kwargs, e)
 
@@ -1014,6 +1048,9 @@ def _b_zip(ev, args, kw, node):
 
 def _b_enumerate(ev, args, kw, node):
     a = args[0]
+    if hasattr(a, "abstract_iter") and hasattr(a, "idx"):
+        from .absbuf import BufIter
+        return BufIter(a, True, args[1] if len(args) > 1 else kw.get("start", 0))
     if isinstance(a, range):
         a = list(a)
     if not isinstance(a, (list, tuple)):
